@@ -293,6 +293,9 @@ func (p *Pigeon) tickQueue(chain string) {
 			n := 0
 			for i := range res.Messages {
 				m := &res.Messages[i]
+				if b.holdAttest(m.Id) {
+					continue
+				}
 				proof := p.honestEvidence(chain, m)
 				if p.Hooks.Evidence != nil {
 					proof = p.Hooks.Evidence(chain, m, proof)
